@@ -782,4 +782,7 @@ def run(ctx, res):
     res.require_min("R-WINDOW", 16)
     res.require_min("R-KERNEL", 9)
     res.require_min("PAIR", 1)
+    from .. import runtimerules as _RR
+    res.guard(_RR.rule_stop_chain, prog, res)
+    res.require_min("R-STOP-CHAIN", 2)
     res.require_min("R-CONSUME", 1)
